@@ -794,7 +794,8 @@ static void exec_sync_sched(Evt* e) {
       int ot = pubo_t[u], ok = pubo_k[u];
       if (atomic_load(&led_fin[ot][ok]) > 0) {
         /* the pointer is not dereferenced here: the ledger says the object is dead */
-        XX("sig=kf-c13-join-result-finalised line=%d what=thread %d reads the object %d.%d thread %d handed over: it has been finalised (by the collector of thread %d)", e->line, me, ot, ok, u, atomic_load(&led_by[ot][ok]) - 1);
+        if (isroot[ot][ok]) XX("sig=c13-lost-object line=%d what=thread %d reads the root object %d.%d thread %d handed over: it has been finalised (by the collector of thread %d)", e->line, me, ot, ok, u, atomic_load(&led_by[ot][ok]) - 1);
+        else XX("sig=kf-c13-join-result-finalised line=%d what=thread %d reads the object %d.%d thread %d handed over: it has been finalised (by the collector of thread %d)", e->line, me, ot, ok, u, atomic_load(&led_by[ot][ok]) - 1);
         set_out(e, "dangling=%d.%d", ot, ok); break; }
       struct ProbeA* p = atomic_load(&objs[ot][ok]);
       if (p && (deref(pubo_ref[u]) != (var)p || p->canary != CANARY)) XX("sig=c13-join-stale line=%d what=the pointer thread %d published does not read back as its object %d.%d", e->line, u, ot, ok);
@@ -832,7 +833,7 @@ static void exec_sync_free(Evt* e) {
       if (end_idx[u] >= 0 && (long)c_int(pub_obj[u]) != ev[end_idx[u]].c) XX("sig=c13-join-stale line=%d what=after join(thread %d) its published value reads %ld, last written %ld", e->line, u, (long)c_int(pub_obj[u]), ev[end_idx[u]].c);
       if (pubo_k[u] >= 0) {
         int ot = pubo_t[u], ok = pubo_k[u]; struct ProbeA* p = atomic_load(&objs[ot][ok]);
-        if (atomic_load(&led_fin[ot][ok]) > 0) XX("sig=kf-c13-join-result-finalised line=%d what=after join(thread %d) the object %d.%d it handed over has been finalised", e->line, u, ot, ok);
+        if (atomic_load(&led_fin[ot][ok]) > 0) XX("sig=%s line=%d what=after join(thread %d) the %sobject %d.%d it handed over has been finalised", isroot[ot][ok] ? "c13-lost-object" : "kf-c13-join-result-finalised", e->line, u, isroot[ot][ok] ? "root " : "", ot, ok);
         else if (p && (deref(pubo_ref[u]) != (var)p || p->canary != CANARY)) XX("sig=c13-join-stale line=%d what=after join(thread %d) the pointer it published does not read back as its object %d.%d", e->line, u, ot, ok);
       }
       break; }
